@@ -1,5 +1,5 @@
 """C09 — WhenAll / Join complete once, at the right moment, with inputs in input order (structural clauses)."""
-from rules import lib_accessor, lib_order, lib_when
+from rules import lib_accessor, lib_core, lib_order, lib_when
 
 WHEN_FILES = ['include/yaclib/async/when/all.hpp', 'include/yaclib/async/when/all_tuple.hpp',
               'include/yaclib/async/when/join.hpp', 'include/yaclib/async/when/when.hpp']
@@ -24,12 +24,15 @@ def run(ctx):
     rw = ctx.rule('R-WORD', 'election flags are only loaded or modified by an RMW', minimum=6)
     ro = ctx.rule('R-ORDER', 'election flag orders', minimum=6)
     rc = ctx.rule('R-CASKIND', 'election CAS kinds', minimum=0)
+    rnr = ctx.rule('R-NODEREUSE', 'one callback object is registered on at most one shared core (intrusive next link)',
+                   minimum=4)
     ctx.assume('a Result delivered to a combinator is never Empty')
     for cfg, fb in sorted(fbs.items()):
         fns = lib_accessor.functions_with_accessors(fb, WHEN_FILES)
         if not fns:
             ctx.broken('no accessor call found in the combinator strategies (%s)' % cfg)
         lib_accessor.check(ctx, fb, ra, fns, EXEMPT)
+        lib_core.check_node_reuse(ctx, fb, rnr, lambda f: 'async/when' in f.file)
         lib_when.check_setonce(ctx, fb, rs, STRATS)
         lib_when.check_callbacks(ctx, fb, rcb)
         lib_when.check_sibling(ctx, fb, rsb)
